@@ -14,7 +14,7 @@ from ..cref import show, operands_closure
 from ..il import reader
 
 CALLEE_FEATURES = frozenset({"cond", "cast", "unary", "shift", "if", "loop", "logical"})
-CALLER_FEATURES = frozenset({"cond", "cast", "unary", "shift", "if", "imm", "hyb_call", "calls_mixed_tmp_width"})
+CALLER_FEATURES = frozenset({"cond", "cast", "unary", "shift", "if", "imm", "hyb_call", "calls_mixed_tmp_width", "macro"})
 
 _counter = [0]
 RET_RAW = [False]
@@ -89,7 +89,9 @@ def worker(nprog, nstates, seed, fresh_every, enable):
         if not any(n and n[0] == "call" for n in __import__("vlib.cref", fromlist=["walk"]).walk(body)):
             # make sure the caller calls: dst = f(..) + g(..)
             def mkcall(s):
-                return ("call", s.name, [data.draw(gen.leaf(env)) for _ in s.params])
+                # a third of the value arguments is directly a macro invocation (its C type is the macro's return type)
+                return ("call", s.name, [data.draw(gen.macro_call(env, 1)) if data.draw(st.integers(0, 2)) == 0
+                                         else data.draw(gen.leaf(env)) for _ in s.params])
             e = mkcall(specs[0])
             for s in specs[1:] + ([specs[0]] if data.draw(st.booleans()) else []):
                 e = ("bin", data.draw(st.sampled_from(["+", "^", "-"])), e, mkcall(s))
